@@ -355,4 +355,267 @@ theorem segOutcome_indep (c : Cls) (tr : List Trans) (s s' : IStream) (hd : s.da
   repeat' split
   all_goals simp
 
+/-! ### `secLoad` / `segLoad` : closed forms -/
+
+/-- size probe, seek to the record, read it : (stream, bytes stored, stream_size) -/
+def hdrRead (tr : List Trans) (st : IStream) (hdrOff : Int) (n : Nat) : IStream × Bytes × BitVec 64 :=
+  (((streamSizeOf tr st).1.seekg (trApply tr hdrOff)).read n |>.1,
+   ((streamSizeOf tr st).1.seekg (trApply tr hdrOff)).read n |>.2,
+   (streamSizeOf tr st).2)
+
+/-- the section object before its header is read -/
+def secInit (c : Cls) (ss : BitVec 64) (trEmpty isLazy : Bool) (idx : Nat) : SecBuf :=
+  { cls := c, stype := 0, size := 0, data := none, dataSize := 0, streamSize := ss,
+    translatorEmpty := trEmpty, isLazy := isLazy, index := idx }
+
+@[simp] theorem decodeShdr_isLoaded (c enc r b) : (decodeShdr c enc r b).isLoaded = b.isLoaded := by
+  cases c <;> rfl
+@[simp] theorem decodeShdr_canLoad (c enc r b) : (decodeShdr c enc r b).canLoad = b.canLoad := by
+  cases c <;> rfl
+@[simp] theorem decodeShdr_data (c enc r b) : (decodeShdr c enc r b).data = b.data := by
+  cases c <;> rfl
+@[simp] theorem decodeShdr_dataSize (c enc r b) : (decodeShdr c enc r b).dataSize = b.dataSize := by
+  cases c <;> rfl
+@[simp] theorem decodeShdr_streamSize (c enc r b) : (decodeShdr c enc r b).streamSize = b.streamSize := by
+  cases c <;> rfl
+@[simp] theorem decodeShdr_isLazy (c enc r b) : (decodeShdr c enc r b).isLazy = b.isLazy := by
+  cases c <;> rfl
+@[simp] theorem decodeShdr_index (c enc r b) : (decodeShdr c enc r b).index = b.index := by
+  cases c <;> rfl
+@[simp] theorem decodeShdr_name (c enc r b) : (decodeShdr c enc r b).name = b.name := by
+  cases c <;> rfl
+@[simp] theorem decodeShdr_cls (c enc r b) : (decodeShdr c enc r b).cls = b.cls := by
+  cases c <;> rfl
+
+theorem secGetData_eq (c : Cls) (tr : List Trans) (ls : LoadSt) (b : SecBuf) :
+    secGetData c tr ls b =
+      if !b.isLoaded && b.canLoad then
+        ((secLoadData c tr ls b).1,
+         if (secLoadData c tr ls b).2.2 then (secLoadData c tr ls b).2.1
+         else { (secLoadData c tr ls b).2.1 with canLoad := false })
+      else (ls, b) := by
+  unfold secGetData; split <;> rfl
+
+theorem secLoad_eq (c : Cls) (enc : Enc) (tr : List Trans) (ls : LoadSt) (hdrOff : Int)
+    (isLazy : Bool) (idx : Nat) :
+    secLoad c enc tr ls hdrOff isLazy idx =
+      let h := hdrRead tr ls.st hdrOff (shdrSize c)
+      let b0 := secInit c h.2.2 tr.isEmpty isLazy idx
+      let ls1 : LoadSt := { ls with st := h.1 }
+      if h.1.gcount != shdrSize c then (ls1, { b0 with addrSet := true })
+      else
+        let b := { decodeShdr c enc h.2.1 b0 with fileData := fileDataOf c tr h.1 (decodeShdr c enc h.2.1 b0) }
+        if isLazy then (ls1, { b with addrSet := true })
+        else ((secGetData c tr ls1 b).1, { (secGetData c tr ls1 b).2 with addrSet := true }) := by
+  unfold secLoad hdrRead secInit sec64_load_eager
+  simp only [decodeShdr_isLoaded]
+  split
+  · rfl
+  · cases isLazy <;> rfl
+
+@[simp] theorem decodePhdr_isLoaded (c enc r g) : (decodePhdr c enc r g).isLoaded = g.isLoaded := by
+  cases c <;> rfl
+@[simp] theorem decodePhdr_streamSize (c enc r g) : (decodePhdr c enc r g).streamSize = g.streamSize := by
+  cases c <;> rfl
+@[simp] theorem decodePhdr_data (c enc r g) : (decodePhdr c enc r g).data = g.data := by
+  cases c <;> rfl
+@[simp] theorem decodePhdr_isLazy (c enc r g) : (decodePhdr c enc r g).isLazy = g.isLazy := by
+  cases c <;> rfl
+@[simp] theorem decodePhdr_secs (c enc r g) : (decodePhdr c enc r g).secs = g.secs := by
+  cases c <;> rfl
+@[simp] theorem decodePhdr_index (c enc r g) : (decodePhdr c enc r g).index = g.index := by
+  cases c <;> rfl
+
+/-- the segment object before its header is read -/
+def segInit (ss : BitVec 64) (isLazy : Bool) : Seg := { streamSize := ss, isLazy := isLazy, offsetSet := true }
+
+theorem segLoad_eq (c : Cls) (enc : Enc) (tr : List Trans) (ls : LoadSt) (hdrOff : Int) (isLazy : Bool) :
+    segLoad c enc tr ls hdrOff isLazy =
+      let h := hdrRead tr ls.st hdrOff (phdrSize c)
+      let g := decodePhdr c enc (wr (List.replicate (phdrSize c) 0) 0 h.2.1) (segInit h.2.2 isLazy)
+      let ls1 : LoadSt := { ls with st := h.1 }
+      if isLazy then (ls1, g, true) else segLoadData c tr ls1 g := by
+  unfold segLoad hdrRead segInit
+  simp only [decodePhdr_isLoaded]
+  cases isLazy <;> rfl
+
+theorem segGetData_eq (c : Cls) (tr : List Trans) (ls : LoadSt) (g : Seg) :
+    segGetData c tr ls g =
+      if !g.isLoaded then ((segLoadData c tr ls g).1, (segLoadData c tr ls g).2.1) else (ls, g) := by
+  unfold segGetData; split <;> rfl
+
+/-! ### reads inside the file -/
+
+theorem hdrRead_inside (st : IStream) (he : st.eof = false) (hf : st.fail = false) (k n : Nat)
+    (hk : k + n ≤ st.data.length) :
+    hdrRead [] st (Int.ofNat k) n =
+      ({ st with pos := k + n, gcount := n }, slice st.data k n, BitVec.ofNat 64 st.data.length) := by
+  have h1 : streamSizeOf [] st = ({ st with pos := st.data.length }, BitVec.ofNat 64 st.data.length) := by
+    unfold streamSizeOf
+    simp only [IStream.seekEnd_tellg st he hf]
+    rfl
+  have h2 : trApply [] (Int.ofNat k) = Int.ofNat k := rfl
+  unfold hdrRead
+  rw [h1, h2]
+  simp only []
+  rw [IStream.seekg_nat { st with pos := st.data.length } hf k (by simp; omega)]
+  rw [IStream.read_ok { st with pos := k, eof := false } rfl hf n (by simp; omega)]
+  cases st; simp_all
+
+theorem secOff_nil (offset : BitVec 64) : secOff [] offset = offset := by
+  unfold secOff trApply; exact BitVec.ofInt_toInt
+
+theorem guards_inside (offset size : BitVec 64) (len : Nat) (h63 : len < 9223372036854775808)
+    (h : offset.toNat + size.toNat ≤ len) :
+    BitVec.ult (BitVec.ofNat 64 len) offset = false ∧
+    (BitVec.ult (BitVec.ofNat 64 len) size || BitVec.ult (BitVec.ofNat 64 len - offset) size) = false ∧
+    BitVec.ult (18446744073709551615#64 - BitVec.signExtend 64 1#32) size = false := by
+  have e1 : BitVec.signExtend 64 1#32 = 1#64 := by decide
+  have ho := offset.isLt; have hs := size.isLt
+  simp only [e1, BitVec.ult, BitVec.toNat_sub, BitVec.toNat_ofNat, Nat.reducePow, Bool.or_eq_false_iff,
+    decide_eq_false_iff_not] at *
+  omega
+
+/-- resident data and `data_size` of a section whose file range is inside the image -/
+def secData (img : Bytes) (b : SecBuf) : Option Bytes × BitVec 64 :=
+  if isNullOrNobitsTy b.stype then (none, b.dataSize)
+  else if b.size = 0 then (some (alloc 1), 0)
+  else (some (slice img b.offset.toNat b.size.toNat ++ [0]), b.size)
+
+theorem secOutcome_inside (c : Cls) (st : IStream) (stype : BitVec 32) (size offset : BitVec 64)
+    (h63 : st.data.length < 9223372036854775808) (hty : isNullOrNobitsTy stype = false)
+    (h : offset.toNat + size.toNat ≤ st.data.length) :
+    secOutcome c [] st stype size offset (BitVec.ofNat 64 st.data.length) true =
+      if size = 0 then .loadedEmpty else .loaded (slice st.data offset.toNat size.toNat) := by
+  have g := guards_inside offset size _ h63 h
+  unfold secOutcome
+  simp only [secOff_nil, sec32_load_data_off_gt, sec64_load_data_off_gt, sec32_load_data_size_gt,
+    sec64_load_data_size_gt, sec64_load_data_sizet, g.1, g.2.1, g.2.2, hty, isolatedRead_ok st offset size h h63]
+  cases c <;> simp
+
+theorem secOutcome_nobits (c : Cls) (tr : List Trans) (st : IStream) (stype : BitVec 32)
+    (size offset ss : BitVec 64) (hty : isNullOrNobitsTy stype = true) :
+    secOutcome c tr st stype size offset ss true = .refuse ∨
+    secOutcome c tr st stype size offset ss true = .keep true := by
+  unfold secOutcome
+  simp only [hty]
+  repeat' split
+  all_goals simp_all
+
+/-- every range `load_data` would read for `b` lies inside `len` bytes -/
+def SecInside (len : Nat) (b : SecBuf) : Prop :=
+  isNullOrNobitsTy b.stype = false → b.offset.toNat + b.size.toNat ≤ len
+
+/-- `get_data()`'s treatment of `load_data`'s result -/
+def secGetApply (b : SecBuf) (o : SecOutcome) : SecBuf :=
+  if (o.apply b).2 then (o.apply b).1 else { (o.apply b).1 with canLoad := false }
+
+theorem secGetData_snd (c : Cls) (tr : List Trans) (ls : LoadSt) (b : SecBuf) :
+    (secGetData c tr ls b).2 =
+      if !b.isLoaded && b.canLoad then
+        secGetApply b (secOutcome c tr ls.st b.stype b.size b.offset b.streamSize b.data.isNone)
+      else b := by
+  rw [secGetData_eq]; split
+  · simp only [secGetApply, secLoadData_snd]
+  · rfl
+
+theorem secGetData_st (c : Cls) (tr : List Trans) (ls : LoadSt) (b : SecBuf) :
+    (secGetData c tr ls b).1.st =
+      if (!b.isLoaded && b.canLoad) &&
+          (secOutcome c tr ls.st b.stype b.size b.offset b.streamSize b.data.isNone).reads
+      then (isolatedRead ls.st (secOff tr b.offset) b.size).1 else ls.st := by
+  rw [secGetData_eq]; split
+  · rename_i h; simp only [h, Bool.true_and, secLoadData_st]
+  · rename_i h; simp [h]
+
+@[simp] theorem secGetData_data (c : Cls) (tr : List Trans) (ls : LoadSt) (b : SecBuf) :
+    (secGetData c tr ls b).1.st.data = ls.st.data := by
+  rw [secGetData_st]; split <;> simp
+@[simp] theorem secGetData_kind (c : Cls) (tr : List Trans) (ls : LoadSt) (b : SecBuf) :
+    (secGetData c tr ls b).1.st.kind = ls.st.kind := by
+  rw [secGetData_st]; split <;> simp
+
+/-- `get_data()` on a not yet resident section of a file that contains its range : the data is the
+    file range (plus the terminator), whatever the state of the stream; the flags do not change -/
+theorem secGetData_inside (c : Cls) (ls : LoadSt) (b : SecBuf) (hl : b.isLoaded = false)
+    (hcl : b.canLoad = true) (hnd : b.data = none)
+    (hss : b.streamSize = BitVec.ofNat 64 ls.st.data.length)
+    (h63 : ls.st.data.length < 9223372036854775808) (hin : SecInside ls.st.data.length b) :
+    (∃ L : Bool, (secGetData c [] ls b).2 =
+      { b with data := (secData ls.st.data b).1, dataSize := (secData ls.st.data b).2,
+               isLoaded := L, canLoad := L } ∧ (isNullOrNobitsTy b.stype = false → L = true)) ∧
+    (secGetData c [] ls b).1.st.eof = ls.st.eof ∧ (secGetData c [] ls b).1.st.fail = ls.st.fail := by
+  rw [secGetData_snd, secGetData_st]
+  simp only [hl, hcl, Bool.not_false, Bool.and_self, if_true, hnd, hss, Option.isNone_none, Bool.true_and]
+  cases hty : isNullOrNobitsTy b.stype
+  · have hi := hin hty
+    have hO := secOutcome_inside c ls.st b.stype b.size b.offset h63 hty hi
+    by_cases hz : b.size = 0
+    · simp only [hz, if_true] at hO
+      simp only [hO, secGetApply, SecOutcome.apply, SecOutcome.reads, secData, hty, hz, Bool.false_eq_true,
+        if_false, if_true]
+      refine ⟨⟨true, ?_, fun _ => rfl⟩, by first | trivial | exact ⟨rfl, rfl⟩ | simp⟩
+      cases b; simp_all
+    · simp only [hz, if_false] at hO
+      simp only [hO, secGetApply, SecOutcome.apply, SecOutcome.reads, secData, hty, hz, Bool.false_eq_true,
+        if_false, if_true, secOff_nil, isolatedRead_ok ls.st b.offset b.size hi h63]
+      refine ⟨⟨true, ?_, fun _ => rfl⟩, by first | trivial | exact ⟨rfl, rfl⟩ | simp⟩
+      cases b; simp_all
+  · rcases secOutcome_nobits c [] ls.st b.stype b.size b.offset (BitVec.ofNat 64 ls.st.data.length) hty with h | h
+    · simp only [h, secGetApply, SecOutcome.apply, SecOutcome.reads, secData, hty, if_true, Bool.false_eq_true,
+        if_false]
+      refine ⟨⟨false, ?_, fun h => by simp at h⟩, by first | trivial | exact ⟨rfl, rfl⟩ | simp⟩
+      cases b; simp_all
+    · simp only [h, secGetApply, SecOutcome.apply, SecOutcome.reads, secData, hty, if_true, Bool.false_eq_true,
+        if_false]
+      refine ⟨⟨true, ?_, fun _ => rfl⟩, by first | trivial | exact ⟨rfl, rfl⟩ | simp⟩
+      cases b; simp_all
+
+/-- header record of section `idx` at file position `k` as the loader decodes it -/
+def secHdr (c : Cls) (enc : Enc) (img : Bytes) (k : Nat) (isLazy : Bool) (idx : Nat) : SecBuf :=
+  decodeShdr c enc (slice img k (shdrSize c)) (secInit c (BitVec.ofNat 64 img.length) true isLazy idx)
+
+/-- **`section_impl::load` on a file that contains the record and the section's range** :
+    the header read succeeds, the fields are the decoded record, an eager load makes exactly the
+    file range resident, the stream stays good -/
+theorem secLoad_inside (c : Cls) (enc : Enc) (ls : LoadSt) (k : Nat) (isLazy : Bool) (idx : Nat)
+    (he : ls.st.eof = false) (hf : ls.st.fail = false)
+    (h63 : ls.st.data.length < 9223372036854775808) (hk : k + shdrSize c ≤ ls.st.data.length)
+    (hin : SecInside ls.st.data.length (secHdr c enc ls.st.data k isLazy idx)) :
+    (∃ (fd : Option Bytes) (L : Bool),
+      (secLoad c enc [] ls (Int.ofNat k) isLazy idx).2 =
+        { secHdr c enc ls.st.data k isLazy idx with
+            addrSet := true, fileData := fd, canLoad := isLazy || L, isLoaded := !isLazy && L,
+            data := if isLazy then none else (secData ls.st.data (secHdr c enc ls.st.data k isLazy idx)).1,
+            dataSize := if isLazy then 0 else (secData ls.st.data (secHdr c enc ls.st.data k isLazy idx)).2 } ∧
+      (isNullOrNobitsTy (secHdr c enc ls.st.data k isLazy idx).stype = false → L = true)) ∧
+    (secLoad c enc [] ls (Int.ofNat k) isLazy idx).1.st.eof = false ∧
+    (secLoad c enc [] ls (Int.ofNat k) isLazy idx).1.st.fail = false ∧
+    (secLoad c enc [] ls (Int.ofNat k) isLazy idx).1.st.data = ls.st.data ∧
+    (secLoad c enc [] ls (Int.ofNat k) isLazy idx).1.st.kind = ls.st.kind := by
+  rw [secLoad_eq, hdrRead_inside ls.st he hf k (shdrSize c) hk]
+  simp only [bne_self_eq_false, Bool.false_eq_true, if_false, List.isEmpty_nil]
+  cases isLazy
+  · simp only [Bool.false_eq_true, if_false]
+    have e : decodeShdr c enc (slice ls.st.data k (shdrSize c))
+        (secInit c (BitVec.ofNat 64 ls.st.data.length) true false idx) = secHdr c enc ls.st.data k false idx := rfl
+    simp only [e]
+    generalize fileDataOf c [] _ _ = fd
+    have hg := secGetData_inside c { ls with st := { ls.st with pos := k + shdrSize c, gcount := shdrSize c } }
+      { secHdr c enc ls.st.data k false idx with fileData := fd }
+      (by simp [secHdr, secInit]) (by simp [secHdr, secInit]) (by simp [secHdr, secInit])
+      (by simp [secHdr, secInit]) h63 hin
+    obtain ⟨⟨L, h1, h2⟩, h3, h4⟩ := hg
+    refine ⟨⟨fd, L, ?_, h2⟩, ?_, ?_, ?_, ?_⟩
+    · rw [h1]
+      simp [secData]
+    · rw [h3]; exact he
+    · rw [h4]; exact hf
+    · simp
+    · simp
+  · simp only [if_true]
+    generalize fileDataOf c [] _ _ = fd
+    refine ⟨⟨fd, true, ?_, fun _ => rfl⟩, by simp [he, hf]⟩
+    simp [secHdr, secInit]
+
 end ElfioVerif
